@@ -17,18 +17,22 @@ def warm():
 def run(tier: str) -> int:
     out = Outcome(PID, tier)
     wd = workdir(PID)
-    fams = ["A3", "A4o", "M3", "C5"]
+    fams = ["A3", "A4o", "M3", "C5", "D5"]
     mcs = [sc.mc(wd, f)[0] for f in fams]
     gens = [sc.tables(wd, f)[0] for f in fams]
     recs = [r for g in gens for r in g["recs"]]
-    extra = {"generated": 0, "distinct": 0}
+    r5q = sc.tables(wd, "RND", rnd_seed=910 + seed(), rndn=5, rndk=6)[0]
+    recs += r5q["recs"]
+    extra = {"generated": r5q["generated"], "distinct": r5q["distinct"]}
     if tier == "thorough":
+        base = extra
         extra = sc.tables(wd, "M4c")[0]
         recs += extra["recs"]
         r5 = sc.tables(wd, "RND", rnd_seed=900 + seed(), rndn=5, rndk=30)[0]
         recs += r5["recs"]
-        extra = {"generated": extra["generated"] + r5["generated"], "distinct": extra["distinct"] + r5["distinct"]}
-    stats, fails = sc.replay(wd, "sigma", recs, 1)
+        extra = {"generated": base["generated"] + extra["generated"] + r5["generated"],
+                 "distinct": base["distinct"] + extra["distinct"] + r5["distinct"]}
+    stats, fails = sc.replay(wd, "sigma", recs, 2)
     for f in fails:
         key = json.dumps({"g": f["g"], "a": f["a"], "b": f["b"], "c": f["c"]}, sort_keys=True)
         sig = f["clause"] + (":" + f["exc"] if "exc" in f else "") + (f":ab={f['ab']}" if "ab" in f else "")
